@@ -508,3 +508,10 @@ def run(facts, rep, tier):
     rule_r4(facts, rep)
     rule_r5(facts, rep)
     rule_r6(facts, rep)
+    rep.rule("C04-R2b", "= C20-R3: the typed node accessors (Section::child_id, Quote::next_id, ...) return the field they are named after - the incremental index walk descends "
+             "through them, while a fresh start indexes every arena slot directly.")
+    from . import c20
+    c20.rule_r3(facts, rep, "C04-R2b")
+    rep.rule("C04-R7", "= C18-R4: the cached search order is a total order on (rank, key), so it cannot depend on node ids, i.e. on which note was edited last.")
+    from . import c18
+    c18.rule_r4(facts, rep, "C04-R7")
